@@ -9,11 +9,16 @@ SPEC = {
         {"name": "malformed", "pkg": S5, "kind": "rapid", "run": "^TestVerifC17Malformed$",
          "quick": {"checks": 10000, "shards": 2, "timeout": 300},
          "thorough": {"checks": 30000, "shards": 16, "timeout": 1500}},
+        {"name": "surplus", "pkg": S5, "kind": "rapid", "run": "^TestVerifC17Surplus$",
+         "quick": {"checks": 6000, "shards": 2, "timeout": 300},
+         "thorough": {"checks": 30000, "shards": 8, "timeout": 1500}},
         {"name": "args", "pkg": S5, "kind": "rapid", "run": "^TestVerifC17Args$",
          "quick": {"checks": 60000, "shards": 1, "timeout": 300},
          "thorough": {"checks": 200000, "shards": 8, "timeout": 1500}},
         {"name": "fuzz-handshake", "pkg": S5, "kind": "fuzz", "fuzz": "FuzzVerifC17Handshake",
          "quick": {"timeout": 300}, "thorough": {"fuzztime": "60s", "timeout": 600, "workers": 6}},
+        {"name": "fuzz-surplus", "pkg": S5, "kind": "fuzz", "fuzz": "FuzzVerifC17Surplus",
+         "quick": {"timeout": 300}, "thorough": {"fuzztime": "30s", "timeout": 600, "workers": 6}},
         {"name": "fuzz-args", "pkg": S5, "kind": "fuzz", "fuzz": "FuzzVerifC17Args",
          "quick": {"timeout": 300}, "thorough": {"fuzztime": "60s", "timeout": 600, "workers": 6}},
     ],
@@ -33,9 +38,9 @@ TEXT = {
                    "independent parser on encoded, edited and dense random strings; two native fuzz targets extend both "
                    "searches coverage-guided in the thorough tier. Absence of violations beyond what was generated is not "
                    "established."),
-    "level_note": ("Trusted: refsocks (written from RFC 1928/1929 and pt-spec), the wire. Preconditions taken from the code and "
+    "level_note": ("Surplus bytes behind a message (same segment, split, next segment) are generated as a class of their own: Handshake may refuse the exchange or return the exact request with every surplus byte still readable from the connection; swallowing them is a violation. Trusted: refsocks (written from RFC 1928/1929 and pt-spec), the wire. Preconditions taken from the code and "
                    "its caller tor: no NUL inside arguments, a lone NUL password stands for 'no password part', clients do not "
-                   "pipeline (a message is sent only after the previous reply). A backslash before an ordinary byte is "
+                   "pipeline in the valid / malformed units (a message is sent only after the previous reply); the surplus unit drops that assumption. A backslash before an ordinary byte is "
                    "accepted either as rejected (this implementation) or as that byte (goptlib). Deadline values are checked "
                    "as 'non-zero, in the future, set before the first Read, zero on successful return', not as 5 s."),
 }
